@@ -23,6 +23,29 @@ CHECKS = {
     note="Trusted: reference model's validity verdict; ecdsa fallback back end (the pysecp256k1 branch is dead code in this sandbox). IL=0 for a child is valid per BIP32 and is not planted as invalid."),
 }
 
+CHECKS.update({
+ "C08": dict(
+    engine="entropy_sim", level="exploration", design="DESIGN.md section 4",
+    technique="deterministic simulation: OS entropy device, clock, pid and process-wide PRNG behind seams; seeded histories with device faults and real fork() twins; request accounting + twin equality/inequality oracles",
+    text="Seeded search over histories of fresh-wallet requests (five entry points incl. the CLI `new`) interleaved with environment events: process-wide PRNG reset to seen states, clock freeze/jumps, device epoch changes, device faults (EIO, no OS source, EAGAIN once) switched on and off, fork twins that differ only in the device stream (must differ) or in everything but the device stream (must agree), and statistical batches of 64 fresh mnemonics per length (every entropy bit varies, none coincide). A returned wallet must have obtained >= ENT bits in successful device requests; after a fault clears the next request must succeed.",
+    note="Trusted: the patched names (random._urandom, os.urandom, os.getrandom, open('/dev/urandom')) are the only routes to OS randomness available to the library's pure-Python code; fork() as snapshot; the repo's word list used only as a bijection. Statistical clause is reproducible per seed (device stream keyed by the run seed)."),
+ "C15": dict(
+    engine="cli_sim", level="exploration", design="DESIGN.md section 6",
+    technique="deterministic simulation of the CLI process: in-memory VFS + stdout/stderr capture + entropy device, environment actor and I/O-fault injector at every call boundary; secret scan over every channel against the unfiltered API result",
+    text="Seeded search over --paranoia argument vectors (all five sub-commands, both networks, accounts, intervals incl. empty ones, stdout vs -f path states) run through main() in-process, fault-free and under races / I/O errors / interrupts. On every channel the process wrote (stdout, each file, stderr of served runs; complete or partial) no secret string of the unfiltered API result (raw or JSON-escaped), no token decoding to a WIF/xprv payload, no 64-hex private scalar and no >=12-word run may occur, at any nesting depth; served output must equal the harness's white-list filter of the unfiltered API result.",
+    note="Trusted: harness Base58Check/Bech32 decoders and the reference filter; in-process main() with exit-status mapping; VFS fidelity (cross-checked against real subprocesses in C20). Secrets are taken from the library's own unfiltered output for the same request (whether that output is right is C06/C20)."),
+ "C19": dict(
+    engine="wire_sim", level="exploration", design="DESIGN.md section 7",
+    technique="deterministic simulation of a faulty byte stream: read-logging BytesIO subclass delivering seeded EOF/flip/splice/tail/crafted-length faults to a multi-message reader; strict reference parser as oracle",
+    text="Seeded search over wires carrying 1-5 scripts or varints written by the library (element lengths at every push threshold, 521 and 2^64 refusal probes) and read back message after message from one stream; fault-free wires must round-trip with standard minimal pushes and exact byte accounting, faulty wires (EOF inside varint / push length / push data / at a boundary, flips, splices, tail garbage, adversarial declared lengths) may be refused but whatever is accepted must be accepted by the strict reference parser with the same elements and byte count.",
+    note="Trusted: the harness's reference parser/serialiser; 0x4e treated as a plain opcode on both sides; zero-length elements are outside the property's domain."),
+ "C20": dict(
+    engine="cli_sim", level="exploration", design="DESIGN.md section 6",
+    technique="deterministic simulation of the CLI process: in-memory VFS with an adversarial environment actor and I/O-fault injector scheduled at every VFS/stdout call boundary; API twin as reference model; real-subprocess fidelity cross-check",
+    text="Seeded search over argument vectors (grammar over five sub-commands and global options with values on both sides of every validator bound and eleven -f path states) executed by main() in-process on an in-memory file system, in three separately run batches: fault-free, races (another process creates a file/dir/symlink at the target or removes/chmods its parent at a chosen call boundary) and I/O errors/interrupts (ENOSPC after k bytes, EIO on write/close, EMFILE/EACCES on open, EPIPE/EIO on stdout, KeyboardInterrupt). Oracle: refused (status != 0, no wallet data on stdout, no new file) or served (status 0, output identical to json.dumps of the library API result for the same secret/network/account/interval, library-filtered under --paranoia, BIP44-shaped rows) or help; always: no inode owned by someone else is modified. One known finding (hardened address indexes for END > 2^31) is recorded, not repaired.",
+    note="Trusted: VFS models the Linux semantics the CLI can observe for a non-root user (fault-free subset cross-checked against real `python -m btc_hd_wallet` subprocesses: 8 vectors per quick run, 48 per thorough run); exit-status mapping of in-process main(); the API twin is the library itself (functional correctness of generate() is C06)."),
+})
+
 NOT_APPLICABLE = [
  ("C02", "pure algebraic identity over (key, chain code, index list): no schedule, fault, environment or history on its path; the PRF seam's infinity case is decided under C18"),
  ("C03", "pure string->bytes functions (NFKD, PBKDF2, one HMAC); five constructors are five stateless call chains"),
